@@ -208,12 +208,12 @@ def _write_dump(path, frames, types, timesteps, lo, H, cols=None):
                 hdr = write_dump_header(int(t), n, bounds, addson=" ".join(cols[0]) if cols else "")
                 f.write(hdr)
             else:
-                xy = H[1, 0]
-                xz = H[2, 0] if d == 3 else 0.0
-                yz = H[2, 1] if d == 3 else 0.0
-                xlo, ylo = lo[0], lo[1]
-                xhi, yhi = xlo + H[0, 0], ylo + H[1, 1]
-                zlo, zhi = (lo[2], lo[2] + H[2, 2]) if d == 3 else (-0.5, 0.5)
+                xy = float(H[1, 0])
+                xz = float(H[2, 0]) if d == 3 else 0.0
+                yz = float(H[2, 1]) if d == 3 else 0.0
+                xlo, ylo = float(lo[0]), float(lo[1])
+                xhi, yhi = xlo + float(H[0, 0]), ylo + float(H[1, 1])
+                zlo, zhi = (float(lo[2]), float(lo[2] + H[2, 2])) if d == 3 else (-0.5, 0.5)
                 f.write(f"ITEM: TIMESTEP\n{int(t)}\nITEM: NUMBER OF ATOMS\n{n}\nITEM: BOX BOUNDS xy xz yz pp pp pp\n")
                 f.write(f"{xlo + min(0.0, xy, xz, xy + xz)!r} {xhi + max(0.0, xy, xz, xy + xz)!r} {xy!r}\n")
                 f.write(f"{ylo + min(0.0, yz)!r} {yhi + max(0.0, yz)!r} {xz!r}\n")
@@ -302,3 +302,843 @@ def _head(snaps, k):
     from PyMatterSim.reader.reader_utils import Snapshots
     k = min(k, snaps.nsnapshots)
     return Snapshots(nsnapshots=k, snapshots=list(snaps.snapshots[:k]))
+
+
+def _weights_file(path, nbrfile, n, rng):
+    """a weight file consistent with the neighbour file (same cn per row), positive 6-decimal weights"""
+    out = []
+    with open(nbrfile) as f:
+        for ln in f:
+            tk = ln.split()
+            if not tk:
+                continue
+            if tk[0] == "id":
+                out.append("id   cn   weightlist\n")
+            else:
+                cn = int(tk[1])
+                out.append(f"{tk[0]} {cn} " + " ".join(f"{w:.6f}" for w in rng.uniform(0.2, 1.5, size=cn)) + "\n")
+    with open(path, "w") as f:
+        f.writelines(out)
+
+
+def _fill_args(W, s):
+    """the shared array arguments derived from target s (plain, non-contiguous view, read-only, integer flavours)"""
+    rng = W.rng
+    S = W.S[s]
+    T, N, d, K = S.nsnapshots, S.snapshots[0].nparticle, W.dim, W.K[s]
+    W.flavours("cond_s", s, rng.normal(size=(T, N)))
+    W.flavours("cond_i", s, rng.integers(1, 5, size=(T, N)), "p")
+    b = rng.random((T, N)) > 0.4
+    b[:, :3] = True
+    W.flavours("cond_b", s, b, "pr")
+    W.flavours("cond_c", s, rng.normal(size=(T, N)) + 1j * rng.normal(size=(T, N)), "pvr")
+    W.flavours("cond_v", s, rng.normal(size=(T, N, d)))
+    W.flavours("cond_t", s, rng.normal(size=(T, N, d, d)), "pr")
+    W.flavours("vec", s, rng.normal(size=(N, d)))
+    W.flavours("vec_i", s, rng.integers(1, 4, size=(N, d)) * rng.choice([-1, 1], size=(N, d)), "p")
+    W.flavours("vecs", s, rng.normal(size=(T, N, d)), "pr")
+    q = [[1, 0], [0, 1], [1, 1], [-1, 1], [2, 0], [0, 2], [2, 1]] if d == 2 else \
+        [[1, 0, 0], [0, 1, 0], [0, 0, 1], [1, 1, 0], [-1, 0, 1], [1, 1, 1], [2, 0, 0], [0, 1, -1]]
+    W.flavours("qvec", s, np.array(q, dtype=np.int64), "pv")
+    W.flavours("ppp", s, np.ones(d, dtype=np.int64), "pr")
+    sig = 0.5 * (np.linspace(1.0, 0.7, K)[:, None] + np.linspace(1.0, 0.7, K)[None, :]) * W.scale
+    W.flavours("sigmas", s, sig, "pr")
+    W.flavours("eps", s, 1.0 + 0.25 * np.add.outer(np.arange(K), np.arange(K)), "p")
+    W.flavours("rcuts", s, 1.6 * sig)
+    W.flavours("ngrids", s, np.array([3, 2] if d == 2 else [2, 3, 2], dtype=np.int64), "p")
+    M = 5
+    W.flavours("efreq", s, rng.uniform(0.5, 3.0, size=M), "pv")
+    W.flavours("evecs", s, rng.normal(size=(N * d, M)), "pv")
+    tt = np.arange(21) * 0.1
+    W.flavours("fil_C", s, np.exp(-tt) * np.cos(3 * tt))
+    W.flavours("fil_t", s, tt, "p")
+    tt2 = np.arange(22) * 0.1
+    W.flavours("fil_C2", s, np.exp(-tt2) * np.cos(2 * tt2), "pr")
+    W.flavours("fil_t2", s, tt2, "pr")
+    p0 = np.array(S.snapshots[0].positions)
+    W.flavours("tri", s, p0[:3])
+    W.flavours("tri_i", s, np.rint(p0[:3] * 3).astype(np.int64), "p")
+    W.flavours("moi", s, rng.normal(size=(7, 3)))
+    W.flavours("moi_i", s, rng.integers(-3, 4, size=(7, 3)), "p")
+    W.flavours("gyr", s, p0[:9])
+    W.flavours("rij", s, rng.normal(scale=3.0, size=(10, d)))
+    W.flavours("rij_i", s, rng.integers(-9, 10, size=(10, d)), "p")
+    W.flavours("rii", s, rng.normal(scale=0.3, size=(N, d)), "pv")
+    bins = (np.arange(12) + 0.5) * 0.2
+    g = np.abs(1 + 0.4 * np.sin(3 * bins) * np.exp(-bins))
+    g[:2] = 0.0
+    W.flavours("s2_gr", s, g, "pr")
+    W.flavours("s2_bins", s, bins, "p")
+    W.flavours("dist", s, np.abs(rng.normal(size=15)), "pv")
+    for i, p in enumerate([[0.0, 0.0], [2.0, 0.0], [2.0, 2.0], [0.0, 2.0]]):
+        W.flavours(f"sqP{i + 1}", s, np.array(p) + 0.25 * s, "p")
+    W.flavours("sqR0", s, np.array([1.1, 0.8]) + 0.25 * s, "p")
+    W.flavours("sqvec", s, np.array([0.7, -1.9]), "p")
+    W.flavours("angles", s, np.array([0.3 + 0.2 * s, 1.1, 2.0]), "p")
+
+
+def _finish_world(W):
+    """neighbour / weight files with the real Nnearests, the neighbour matrix of frame 0, arguments"""
+    from PyMatterSim.neighbors.calculate_neighbors import Nnearests
+    from PyMatterSim.neighbors.read_neighbors import read_neighbors
+    for s in (1, 2):
+        S = W.S[s]
+        W.T[s] = S.nsnapshots
+        ts = [x.timestep for x in S.snapshots]
+        W.lin[s] = len(set(np.diff(ts))) <= 1
+        W.K[s] = int(np.unique(S.snapshots[0].particle_type).shape[0])
+        W.nbr[s] = os.path.join(W.dir, f"nbr{s}.dat")
+        W.nnb[s] = 6 if W.dim == 2 else 8
+        Nnearests(S, N=W.nnb[s], ppp=np.ones(W.dim, dtype=int), fnfile=W.nbr[s])
+        W.wts[s] = os.path.join(W.dir, f"wts{s}.dat")
+        _weights_file(W.wts[s], W.nbr[s], S.snapshots[0].nparticle, W.rng)
+        with open(W.nbr[s]) as f:
+            W.add("cnlist", s, read_neighbors(f, S.snapshots[0].nparticle, 30))
+        _fill_args(W, s)
+    np.set_printoptions(edgeitems=3, threshold=1000, linewidth=75)   # undo what Nnearests set while building inputs
+    return W
+
+
+def build_small(name, dim, tmp, seed):
+    W = World(name, dim, tmp, seed)
+    rng = W.rng
+    W.scale, W.rdelta, W.qrange = 1.0, 0.25, 4.0
+    if dim == 2:
+        cfg = {1: dict(n=24, steps=[0, 10, 20, 30, 40], lo=[1.0, -2.0], H=[[6.0, 0], [0, 6.0]]),
+               2: dict(n=20, steps=[0, 1, 2, 4], lo=[0.0, 0.5], H=[[6.0, 0], [1.5, 5.0]])}
+    else:   # target 1: orthogonal box whose bounds are centred on the origin (bounds sum to zero)
+        cfg = {1: dict(n=30, steps=[0, 5, 10, 15], lo=[-2.5, -3.0, -2.0], H=[[5.0, 0, 0], [0, 6.0, 0], [0, 0, 4.0]]),
+               2: dict(n=27, steps=[0, 1, 3], lo=[0.5, 0.0, -1.0], H=[[5.0, 0, 0], [1.0, 5.0, 0], [0.5, -1.0, 4.0]])}
+    for s, c in cfg.items():
+        H = np.array(c["H"])
+        lo = np.array(c["lo"])
+        n = c["n"]
+        frac, _ = _lattice(rng, n, H)
+        frames, oris = [], []
+        for _t in c["steps"]:
+            frac = (frac + rng.normal(scale=0.012, size=frac.shape)) % 1.0
+            frames.append(lo + frac @ H)
+            th = rng.uniform(0, 2 * np.pi, size=n)
+            oris.append(np.c_[np.cos(th), np.sin(th)])
+        types = np.array([1] * int(np.ceil(0.6 * n)) + [2] * (n - int(np.ceil(0.6 * n))))
+        path = os.path.join(W.dir, f"traj{s}.atom")
+        _write_dump(path, frames, types, c["steps"], lo, H, cols=(("mux", "muy"), oris) if dim == 2 else None)
+        W.S[s] = _read(path, dim)
+        if dim == 2:
+            W.ORI[s] = _read(path, dim, vec=[5, 6])
+    if dim == 3:
+        assert W.S[1].snapshots[0].boxbounds.sum() == 0
+    return _finish_world(W)
+
+
+def build_sample(name, dim, tmp, seed):
+    W = World(name, dim, tmp, seed)
+    W.heavy = True
+    W.rdelta, W.qrange = 0.5, 1.5
+    if dim == 3:
+        W.scale = 1.0
+        W.S[1] = _head(_read(os.path.join(SAMPLE, "quarternary.dump"), 3), 3)
+        W.S[2] = _read(os.path.join(SAMPLE, "unary.dump"), 3)
+    else:
+        W.scale = 1.0
+        W.S[1] = _head(_read(os.path.join(SAMPLE, "2d", "2ddump.s.atom"), 2), 3)
+        W.S[2] = _head(_read(os.path.join(SAMPLE, "2d", "dump.nematic.atom"), 2), 2)
+        W.ORI[2] = _head(_read(os.path.join(SAMPLE, "2d", "dump.nematic.atom"), 2, vec=[5, 6]), 2)
+    return _finish_world(W)
+
+
+BUILDERS = {"w2": lambda t, sd: build_small("w2", 2, t, sd), "w3": lambda t, sd: build_small("w3", 3, t, sd),
+            "s2": lambda t, sd: build_sample("s2", 2, t, sd), "s3": lambda t, sd: build_sample("s3", 3, t, sd)}
+
+
+def world_descriptor(W):
+    return {"dim": W.dim, "T": [W.T[1], W.T[2]], "lin": [bool(W.lin[1]), bool(W.lin[2])],
+            "ori": [1 in W.ORI, 2 in W.ORI], "heavy": bool(W.heavy)}
+
+
+# ----------------------------------------------------------------------------
+# a session against the real code
+# ----------------------------------------------------------------------------
+
+class Handle:
+    """the user's open neighbour file; frame() = frames consumed so far (-1: not on a frame boundary)"""
+
+    def __init__(self, path, nparticle):
+        self.path, self.n = path, nparticle
+        self.bound = {0: 0}
+        pos = 0
+        with open(path, "r", encoding="utf-8") as f:
+            for i, ln in enumerate(f.read().split("\n")[:-1]):
+                pos += len(ln.encode()) + 1
+                if (i + 1) % (nparticle + 1) == 0:
+                    self.bound[pos] = (i + 1) // (nparticle + 1)
+        self.f = open(path, "r", encoding="utf-8")
+
+    def frame(self):
+        return self.bound.get(self.f.tell(), -1)
+
+    def reopen(self):
+        self.f.close()
+        self.f = open(self.path, "r", encoding="utf-8")
+
+
+# state arrays of the analysis objects (owned by the family: only its constructor / setter may change them)
+STATE = {"gr": ["typenumber", "typecount", "rhotype", "ppp"], "sq": ["qvector", "qvalue", "typenumber", "typecount"],
+         "boo3d": ["smallqlm", "largeQlm", "ppp"], "boo2d": ["ParticlePhi", "ppp"], "nematic": ["QIJ"],
+         "s2": ["s2_results", "sigmas", "typecount"], "dyn": ["time", "diameters", "a2_cuts"],
+         "logdyn": ["time", "diameters", "a2_cuts"], "hess": ["epsilons", "sigmas", "r_cuts"]}
+FAMS = sorted(STATE)
+
+
+class Sess:
+    def __init__(self, W, sdir):
+        self.W, self.dir = W, sdir
+        self.obj = {}
+        self.cv = {}
+        self.h = {s: Handle(W.nbr[s], W.S[s].snapshots[0].nparticle) for s in (1, 2)}
+        self.k = 0
+
+    def out(self, ext=""):
+        self.k += 1
+        return os.path.join(self.dir, f"o{self.k}{ext}")
+
+    def one(self, s):
+        return self.W.S[s].snapshots[0]
+
+    def state_digest(self, fam, s):
+        o = self.obj.get((fam, s))
+        if o is None:
+            return "none"
+        h = hashlib.sha1()
+        for a in STATE[fam]:
+            v = getattr(o, a, None)
+            h.update(a.encode())
+            if isinstance(v, np.ndarray):
+                h.update(dg_array(v).encode())
+            else:
+                _deep(v, h)
+        return h.hexdigest()[:16]
+
+
+def shared_objects(W):
+    """(name, owner family, target, getter(Z)) of every shared object of a session, in a fixed order"""
+    objs = []
+    for s in (1, 2):
+        for tag, ss in (("S", W.S.get(s)), ("ORI", W.ORI.get(s))):
+            if ss is None:
+                continue
+
+            def struct(Z, ss=ss):
+                h = hashlib.sha1(f"{ss.nsnapshots}|{len(ss.snapshots)}".encode())
+                for x in ss.snapshots:
+                    h.update(f"{id(x)}|{x.timestep}|{x.nparticle}|".encode())
+                    for fld in ("particle_type", "positions", "boxlength", "boxbounds", "realbounds", "hmatrix"):
+                        h.update(f"{id(getattr(x, fld))}|".encode())
+                return h.hexdigest()[:16]
+            objs.append((f"{tag}{s}.struct", "", s, struct))
+            for fi, x in enumerate(ss.snapshots):
+                for fld in ("particle_type", "positions", "boxlength", "boxbounds", "realbounds", "hmatrix"):
+                    arr = getattr(x, fld)
+                    if isinstance(arr, np.ndarray):
+                        objs.append((f"{tag}{s}.f{fi}.{fld}", "", s, lambda Z, arr=arr: dg_array(arr)))
+        for (nm, t) in sorted(k for k in W.A if k[1] == s):
+            arr = W.A[(nm, t)]
+            objs.append((f"arg{s}.{nm}", "", s, lambda Z, arr=arr: dg_array(arr)))
+        objs.append((f"file{s}.neighbours", "", s, lambda Z, p=W.nbr[s]: dg_file(p)))
+        objs.append((f"file{s}.weights", "", s, lambda Z, p=W.wts[s]: dg_file(p)))
+        for fam in FAMS:
+            objs.append((f"state{s}.{fam}", fam, s, lambda Z, fam=fam, s=s: Z.state_digest(fam, s)))
+    return objs
+
+
+# ---- the entry points: IMPL[name](Z, s, v) -> (result, file_ok) ; file_ok None = no output file requested
+
+def _ppp(Z, s, v=0):
+    return Z.W.fl("ppp", s, 2 if v % 2 else 0)
+
+
+def i_conditional_gr(Z, s, v):
+    from PyMatterSim.static.gr import conditional_gr
+    W = Z.W
+    cond, ctype = [(W.a("cond_s", s)[0], None), (W.a("cond_b_r", s)[0], None), (W.a("cond_c_v", s)[0], None),
+                   (W.a("cond_v", s)[0], "vector"), (W.a("cond_t_r", s)[0], "tensor"), (W.a("cond_i", s)[0], None)][v]
+    return conditional_gr(Z.one(s), cond, ctype, ppp=_ppp(Z, s, v), rdelta=W.rdelta), None
+
+
+def i_conditional_sq(Z, s, v):
+    from PyMatterSim.static.sq import conditional_sq
+    W = Z.W
+    cond = [W.a("cond_b", s)[0], W.a("cond_s_v", s)[0], W.a("cond_v_r", s)[0], W.a("cond_i", s)[0]][v]
+    return conditional_sq(Z.one(s), W.fl("qvec", s, v), cond), None
+
+
+def i_q8(Z, s, v):
+    from PyMatterSim.static.geometric import q8_tetrahedral
+    if v == 0:
+        return q8_tetrahedral(Z.W.S[s], ppp=_ppp(Z, s)), None
+    out = Z.out(".npy")
+    r = q8_tetrahedral(Z.W.S[s], ppp=_ppp(Z, s, 1), outputfile=out)
+    return r, npy_holds(out, r)
+
+
+def i_packing(Z, s, v):
+    from PyMatterSim.static.geometric import packing_capability_2d
+    W = Z.W
+    if v == 0:
+        return packing_capability_2d(W.S[s], W.a("sigmas", s), W.nbr[s], ppp=_ppp(Z, s)), None
+    out = Z.out(".npy")
+    r = packing_capability_2d(W.S[s], W.a("sigmas_r", s), W.nbr[s], ppp=_ppp(Z, s, 1), outputfile=out)
+    return r, npy_holds(out, r)
+
+
+def i_gyration(Z, s, v):
+    from PyMatterSim.static.shape import gyration_tensor
+    if v == 3:      # a view of the snapshot's own positions (a user selecting a cluster by slicing)
+        return gyration_tensor(Z.one(s).positions[:9]), None
+    return gyration_tensor(Z.W.fl("gyr", s, v)), None
+
+
+def i_participation(Z, s, v):
+    from PyMatterSim.static.vector import participation_ratio
+    return participation_ratio(Z.W.a("vec_i", s) if v == 3 else Z.W.fl("vec", s, v)), None
+
+
+def i_alignment(Z, s, v):
+    from PyMatterSim.static.vector import local_vector_alignment
+    return local_vector_alignment(Z.W.fl("vec", s, v), Z.W.nbr[s]), None
+
+
+def i_phase_quotient(Z, s, v):
+    from PyMatterSim.static.vector import phase_quotient
+    return phase_quotient(Z.W.fl("vec", s, v), Z.W.nbr[s]), None
+
+
+def i_divcurl(Z, s, v):
+    from PyMatterSim.static.vector import divergence_curl
+    return divergence_curl(Z.one(s), Z.W.fl("vec", s, v), _ppp(Z, s, v), Z.W.nbr[s]), None
+
+
+def i_vibrability(Z, s, v):
+    from PyMatterSim.static.vector import vibrability
+    W = Z.W
+    n = W.S[s].snapshots[0].nparticle
+    if v == 0:
+        return vibrability(W.a("efreq", s), W.a("evecs", s), n), None
+    out = Z.out(".npy")
+    r = vibrability(W.a("efreq_v", s), W.a("evecs_v", s), n, outputfile=out)
+    return r, npy_holds(out, r)
+
+
+def i_vecdecomp(Z, s, v):
+    from PyMatterSim.static.vector import vector_decomposition_sq
+    W = Z.W
+    if v == 1:
+        out = Z.out(".csv")
+        r = vector_decomposition_sq(Z.one(s), W.a("qvec_v", s), W.a("vec_v", s), outputfile=out)
+        return r, csv_holds(out, r[1], 8)
+    return vector_decomposition_sq(Z.one(s), W.a("qvec", s), W.fl("vec", s, v)), None
+
+
+def i_vecfft(Z, s, v):
+    from PyMatterSim.static.vector import vector_fft_corr
+    W = Z.W
+    out = Z.out("")
+    r = vector_fft_corr(W.S[s], W.fl("qvec", s, v), W.a("vecs_r" if v else "vecs", s), dt=0.002, outputfile=out)
+    ok = all(npy_holds(f"{out}.{h}.npy", r[h].values) for h in ("FFT", "T_FFT", "L_FFT")) and os.path.exists(out + ".spectra.csv")
+    return r, ok
+
+
+def i_timecorr(Z, s, v):
+    from PyMatterSim.dynamic.time_corr import time_correlation
+    W = Z.W
+    cond = [W.a("cond_s", s), W.a("cond_c_v", s), W.a("cond_v_r", s), W.a("cond_t", s)][v]
+    if v in (1, 3):
+        out = Z.out(".csv")
+        r = time_correlation(W.S[s], cond, dt=0.002, outputfile=out)
+        return r, csv_holds(out, r, 8)
+    return time_correlation(W.S[s], cond, dt=0.002), None
+
+
+def _files(*paths):
+    return tuple((os.path.basename(p).split(".", 1)[-1], dg_file(p)) for p in paths)
+
+
+def i_nnearests(Z, s, v):
+    from PyMatterSim.neighbors.calculate_neighbors import Nnearests
+    out = Z.out(".dat")
+    r = Nnearests(Z.W.S[s], N=[4, 3][v], ppp=_ppp(Z, s, v), fnfile=out)
+    return (r, _files(out)), None
+
+
+def i_cutoff(Z, s, v):
+    from PyMatterSim.neighbors.calculate_neighbors import cutoffneighbors
+    out = Z.out(".dat")
+    r = cutoffneighbors(Z.W.S[s], r_cut=[1.5, 1.25][v] * Z.W.scale, ppp=_ppp(Z, s, v), fnfile=out)
+    return (r, _files(out)), None
+
+
+def i_cutoff_type(Z, s, v):
+    from PyMatterSim.neighbors.calculate_neighbors import cutoffneighbors_particletype
+    out = Z.out(".dat")
+    r = cutoffneighbors_particletype(Z.W.S[s], r_cut=Z.W.fl("rcuts", s, v), ppp=_ppp(Z, s, v), fnfile=out)
+    return (r, _files(out)), None
+
+
+def i_read_neighbors(Z, s, v):
+    from PyMatterSim.neighbors.read_neighbors import read_neighbors
+    return read_neighbors(Z.h[s].f, Z.W.S[s].snapshots[0].nparticle, [200, 3][v]), None
+
+
+def i_reopen(Z, s, v):
+    Z.h[s].reopen()
+    return None, None
+
+
+def i_cal_neighbors(Z, s, v):
+    from PyMatterSim.neighbors.freud_neighbors import cal_neighbors
+    out = Z.out("")
+    r = cal_neighbors(Z.W.S[s], outputfile=out)
+    w = "edgelength" if Z.W.dim == 2 else "facearea"
+    return (r, _files(out + ".neighbor.dat", out + f".{w}.dat", out + ".overall.dat")), None
+
+
+def i_volume_matrix(Z, s, v):
+    from PyMatterSim.neighbors.freud_neighbors import VolumeMatrix
+    W = Z.W
+    if v == 0:
+        return VolumeMatrix(W.S[s], ndim=W.dim, nconfig=0), None
+    if v == 1:
+        out = Z.out(".npy")
+        r = VolumeMatrix(W.S[s], ndim=W.dim, nconfig=0, transform_matrix=False, outputfile=out)
+        return r, npy_holds(out, r)
+    return VolumeMatrix(W.S[s], ndim=W.dim, nconfig=W.T[s] - 1, deltar=0.02), None
+
+
+def i_remove_pbc(Z, s, v):
+    from PyMatterSim.utils.pbc import remove_pbc
+    rij = Z.W.a("rij_i", s) if v == 3 else Z.W.fl("rij", s, v)
+    return remove_pbc(rij, Z.one(s).hmatrix, _ppp(Z, s, v)), None
+
+
+def _period(Z, s):
+    ts = [x.timestep for x in Z.W.S[s].snapshots]
+    return 2.5 * (ts[1] - ts[0]) * 0.002
+
+
+def i_time_average(Z, s, v):
+    from PyMatterSim.utils.coarse_graining import time_average
+    W = Z.W
+    prop = [W.a("cond_c", s), W.a("cond_s_v", s), W.a("cond_c_r", s), W.a("cond_i", s)][v]
+    return time_average(W.S[s], prop, time_period=_period(Z, s), dt=0.002), None
+
+
+def i_spatial_average(Z, s, v):
+    from PyMatterSim.utils.coarse_graining import spatial_average
+    W = Z.W
+    if v == 1:
+        out = Z.out(".npy")
+        r = spatial_average(W.a("cond_v_v", s), W.nbr[s], Nmax=30, outputfile=out)
+        return r, npy_holds(out, r)
+    return spatial_average([W.a("cond_s", s), None, W.a("cond_t_r", s)][v], W.nbr[s], Nmax=[30, 0, 4][v]), None
+
+
+def i_gaussian_blurring(Z, s, v):
+    from PyMatterSim.utils.coarse_graining import gaussian_blurring
+    W = Z.W
+    sig, cut = 1.0 * W.scale, 3.0 * W.scale
+    if v == 0:
+        return gaussian_blurring(W.S[s], W.a("cond_s", s), W.a("ngrids", s), sigma=sig, ppp=_ppp(Z, s), gaussian_cut=cut), None
+    out = Z.out("")
+    r = gaussian_blurring(W.S[s], W.a("cond_v_v", s), W.a("ngrids", s), sigma=sig, ppp=_ppp(Z, s, 1), gaussian_cut=cut,
+                          outputfile=out)
+    return r, npy_holds(out + "_positions.npy", r[0]) and npy_holds(out + "_properties.npy", r[1])
+
+
+def i_triangle_area(Z, s, v):
+    from PyMatterSim.utils.geometry import triangle_area
+    tri = Z.W.a("tri_i", s) if v == 3 else Z.W.fl("tri", s, v)
+    return triangle_area(tri, Z.one(s).hmatrix, _ppp(Z, s, v)), None
+
+
+def i_moment_of_inertia(Z, s, v):
+    from PyMatterSim.utils.funcs import moment_of_inertia
+    if v == 3:
+        return moment_of_inertia(Z.W.a("moi_i", s), m=2, matrix=True), None
+    return moment_of_inertia(Z.W.fl("moi", s, v)), None
+
+
+def i_filon(Z, s, v):
+    from PyMatterSim.utils.fft import Filon_COS
+    W = Z.W
+    if v == 0:
+        return Filon_COS(W.a("fil_C", s), W.a("fil_t", s)), None
+    if v == 1:
+        out = Z.out(".csv")
+        r = Filon_COS(W.a("fil_C_v", s), W.a("fil_t", s), a=0.5, outputfile=out)
+        return r, csv_holds(out, r, 6)
+    return Filon_COS(W.a("fil_C2_r", s), W.a("fil_t2_r", s)), None
+
+
+def i_lines_intersection(Z, s, v):
+    from PyMatterSim.utils.geometry import lines_intersection
+    W = Z.W
+    return lines_intersection(W.a("sqP1", s), W.a("sqP3", s), W.a("sqP2", s), W.a("sqP4", s)), None
+
+
+def i_line_within_square(Z, s, v):
+    from PyMatterSim.utils.geometry import LineWithinSquare
+    W = Z.W
+    return LineWithinSquare(W.a("sqP1", s), W.a("sqP2", s), W.a("sqP3", s), W.a("sqP4", s), W.a("sqR0", s), W.a("sqvec", s)), None
+
+
+def i_cage_relative(Z, s, v):
+    from PyMatterSim.dynamic.dynamics import cage_relative
+    return cage_relative(Z.W.fl("rii", s, v), Z.W.a("cnlist", s)), None
+
+
+def i_s2_integral(Z, s, v):
+    from PyMatterSim.static.pairentropy import s2_integral
+    return s2_integral(Z.W.a("s2_gr_r" if v else "s2_gr", s), Z.W.a("s2_bins", s), Z.W.dim), None
+
+
+def i_grid_gaussian(Z, s, v):
+    from PyMatterSim.utils.funcs import grid_gaussian
+    return grid_gaussian(Z.W.fl("dist", s, v), sigma=0.8), None
+
+
+def i_choosewavevector(Z, s, v):
+    from PyMatterSim.utils.wavevector import choosewavevector
+    return choosewavevector(Z.W.dim, 4 + s, onlypositive=bool(v)), None
+
+
+def i_sph_harm(Z, s, v):
+    from PyMatterSim.utils.spherical_harmonics import sph_harm_l
+    a = Z.W.a("angles", s)
+    return sph_harm_l([4, 6, 12][v], float(a[0]), float(a[1])), None
+
+
+def i_wigner(Z, s, v):
+    from PyMatterSim.utils.funcs import Wignerindex
+    return Wignerindex(1 + s), None
+
+
+def i_write_dump_header(Z, s, v):
+    from PyMatterSim.writer.lammps_writer import write_dump_header
+    x = Z.one(s)
+    return write_dump_header(x.timestep, x.nparticle, x.boxbounds, addson="q6"), None
+
+
+# ---- analysis objects
+
+def _need(Z, fam, s):
+    o = Z.obj.get((fam, s))
+    if o is None:
+        raise MachineryError(f"step on {fam} of target {s} before its constructor (the spec plans the constructor first)")
+    return o
+
+
+def c_gr(Z, s, v):
+    from PyMatterSim.static.gr import gr
+    out = Z.out(".csv") if v == 1 else None
+    o = gr(Z.W.S[s], ppp=_ppp(Z, s, v), rdelta=Z.W.rdelta, outputfile=out)
+    Z.obj[("gr", s)], Z.cv[("gr", s)] = o, (v, out)
+    return Z.state_digest("gr", s), None
+
+
+def m_gr_getresults(Z, s, v):
+    o = _need(Z, "gr", s)
+    r = o.getresults()
+    cv, out = Z.cv[("gr", s)]
+    return r, (csv_holds(out, r, 6) if cv == 1 else None)
+
+
+def c_sq(Z, s, v):
+    from PyMatterSim.static.sq import sq
+    W = Z.W
+    if v == 0:
+        o, out = sq(W.S[s], qrange=W.qrange), None
+    else:
+        out = Z.out(".csv")
+        o = sq(W.S[s], qvector=W.a("qvec_v", s), saveqvectors=True, outputfile=out)
+    Z.obj[("sq", s)], Z.cv[("sq", s)] = o, (v, out)
+    return Z.state_digest("sq", s), None
+
+
+def m_sq_getresults(Z, s, v):
+    o = _need(Z, "sq", s)
+    r = o.getresults()
+    cv, out = Z.cv[("sq", s)]
+    return r, (csv_holds(out, r, 6) if cv == 1 else None)
+
+
+def c_boo3d(Z, s, v):
+    from PyMatterSim.static.boo import boo_3d
+    W = Z.W
+    if v == 0:
+        o = boo_3d(W.S[s], l=6, neighborfile=W.nbr[s], ppp=_ppp(Z, s), Nmax=30)
+    else:
+        o = boo_3d(W.S[s], l=4, neighborfile=W.nbr[s], weightsfile=W.wts[s], ppp=_ppp(Z, s, 1), Nmax=30)
+    Z.obj[("boo3d", s)], Z.cv[("boo3d", s)] = o, (v, None)
+    return Z.state_digest("boo3d", s), None
+
+
+def m_boo3d_ql(Z, s, v):
+    o = _need(Z, "boo3d", s)
+    if v == 0:
+        return o.ql_Ql(), None
+    if v == 1:
+        out = Z.out(".npy")
+        r = o.ql_Ql(coarse_graining=True, outputfile=out)
+        return r, npy_holds(out, r)
+    out = Z.out(".dat")
+    r = o.ql_Ql(outputfile=out)
+    return r, txt_holds(out, r, 6) and npy_holds(out + ".npy", r)
+
+
+def m_boo3d_sij(Z, s, v):
+    o = _need(Z, "boo3d", s)
+    if v == 0:
+        return o.sij_ql_Ql(c=0.6), None
+    o1, o2 = Z.out(".csv"), Z.out(".dat")
+    r = o.sij_ql_Ql(coarse_graining=True, c=0.6, outputqlQl=o1, outputsij=o2)
+    return r, txt_holds(o2, r, 6, skiprows=1) and os.path.exists(o1)
+
+
+def m_boo3d_w(Z, s, v):
+    o = _need(Z, "boo3d", s)
+    if v == 0:
+        return o.w_W_cap(), None
+    o1, o2 = Z.out(".npy"), Z.out(".dat")
+    r = o.w_W_cap(coarse_graining=True, outputw=o1, outputwcap=o2)
+    return r, npy_holds(o1, r[0]) and txt_holds(o2, r[1], 6) and npy_holds(o2 + ".npy", r[1])
+
+
+def m_boo3d_spatial(Z, s, v):
+    o = _need(Z, "boo3d", s)
+    if v == 0:
+        return o.spatial_corr(rdelta=Z.W.rdelta), None
+    out = Z.out(".csv")
+    r = o.spatial_corr(coarse_graining=True, rdelta=Z.W.rdelta, outputfile=out)
+    return r, csv_holds(out, r, 8)
+
+
+def m_boo3d_time(Z, s, v):
+    o = _need(Z, "boo3d", s)
+    if v == 0:
+        return o.time_corr(), None
+    out = Z.out(".csv")
+    r = o.time_corr(coarse_graining=True, dt=0.002, outputfile=out)
+    return r, csv_holds(out, r, 8)
+
+
+def c_boo2d(Z, s, v):
+    from PyMatterSim.static.boo import boo_2d
+    W = Z.W
+    if v == 0:
+        o, ok = boo_2d(W.S[s], l=6, neighborfile=W.nbr[s], ppp=_ppp(Z, s), Nmax=10), None
+    else:
+        out = Z.out(".npy")
+        o = boo_2d(W.S[s], l=4, neighborfile=W.nbr[s], weightsfile=W.wts[s], ppp=_ppp(Z, s, 1), Nmax=10, output_phi=out)
+        ok = npy_holds(out, o.ParticlePhi)
+    Z.obj[("boo2d", s)], Z.cv[("boo2d", s)] = o, (v, None)
+    return Z.state_digest("boo2d", s), ok
+
+
+def m_boo2d_time_average(Z, s, v):
+    o = _need(Z, "boo2d", s)
+    if v == 0:
+        return o.time_average(time_period=_period(Z, s), dt=0.002), None
+    out = Z.out(".npy")
+    r = o.time_average(time_period=_period(Z, s), dt=0.002, average_complex=False, outputfile=out)
+    return r, npy_holds(out, r[0]) and txt_holds(out + ".snapshot_id.dat", r[1], None, skiprows=1)
+
+
+def m_boo2d_spatial(Z, s, v):
+    o = _need(Z, "boo2d", s)
+    if v == 0:
+        return o.spatial_corr(rdelta=Z.W.rdelta), None
+    out = Z.out(".csv")
+    r = o.spatial_corr(rdelta=Z.W.rdelta, outputfile=out)
+    return r, csv_holds(out, r, 8)
+
+
+def m_boo2d_time(Z, s, v):
+    o = _need(Z, "boo2d", s)
+    if v == 0:
+        return o.time_corr(), None
+    out = Z.out(".csv")
+    r = o.time_corr(dt=0.002, outputfile=out)
+    return r, csv_holds(out, r, 8)
+
+
+def c_nematic(Z, s, v):
+    from PyMatterSim.static.nematic import NematicOrder
+    o = NematicOrder(Z.W.ORI[s], Z.W.S[s])
+    Z.obj[("nematic", s)], Z.cv[("nematic", s)] = o, (v, None)
+    return Z.state_digest("nematic", s), None
+
+
+def m_nematic_tensor(Z, s, v):
+    o = _need(Z, "nematic", s)
+    out = Z.out("")
+    if v == 0:
+        r = o.tensor(outputfile=out)
+        return r, npy_holds(out + ".QIJ_raw.npy", o.QIJ) and npy_holds(out + ".Qtrace.npy", r)
+    if v == 1:
+        r = o.tensor(neighborfile=Z.W.nbr[s], Nmax=30, outputfile=out)
+        return r, npy_holds(out + ".QIJ_cg.npy", o.QIJ) and npy_holds(out + ".Qtrace.npy", r)
+    r = o.tensor(eigvals=True, outputfile=out)
+    return r, npy_holds(out + ".QIJ_raw.npy", o.QIJ) and npy_holds(out + ".eigval.npy", r)
+
+
+def m_nematic_spatial(Z, s, v):
+    o = _need(Z, "nematic", s)
+    rd = Z.W.rdelta
+    if v == 0:
+        return o.spatial_corr(rdelta=rd, ppp=_ppp(Z, s)), None
+    out = Z.out(".csv")
+    r = o.spatial_corr(rdelta=rd, ppp=_ppp(Z, s, 1), outputfile=out)
+    return r, csv_holds(out, r, 8)
+
+
+def m_nematic_time(Z, s, v):
+    o = _need(Z, "nematic", s)
+    if v == 0:
+        return o.time_corr(), None
+    out = Z.out(".csv")
+    r = o.time_corr(dt=0.002, outputfile=out)
+    return r, csv_holds(out, r, 8)
+
+
+def c_s2(Z, s, v):
+    from PyMatterSim.static.pairentropy import S2
+    W = Z.W
+    o = S2(W.S[s], sigmas=0.3 * W.fl("sigmas", s, 2 * v), ppp=_ppp(Z, s, v), rdelta=0.1 * W.scale, ndelta=20)
+    Z.obj[("s2", s)], Z.cv[("s2", s)] = o, (v, None)
+    return Z.state_digest("s2", s), None
+
+
+def m_s2_particle(Z, s, v):
+    o = _need(Z, "s2", s)
+    if v == 0:
+        return o.particle_s2(), None
+    out = Z.out(".npy")
+    r = o.particle_s2(outputfile=out)
+    return r, npy_holds(out, r)
+
+
+def m_s2_spatial(Z, s, v):
+    o = _need(Z, "s2", s)
+    if v == 0:
+        return o.spatial_corr(), None
+    out = Z.out(".csv")
+    r = o.spatial_corr(mean_norm=True, outputfile=out)
+    return r, csv_holds(out, r, 8)
+
+
+def m_s2_time(Z, s, v):
+    o = _need(Z, "s2", s)
+    if v == 0:
+        return o.time_corr(), None
+    out = Z.out(".csv")
+    r = o.time_corr(dt=0.002, outputfile=out)
+    return r, csv_holds(out, r, 6)
+
+
+def _c_dyn(Z, s, v, cls, fam):
+    W = Z.W
+    dia = {k + 1: float(W.a("sigmas", s)[k, k]) for k in range(W.K[s])}
+    if v == 0:
+        o = cls(x_snapshots=W.S[s], dt=0.002, ppp=_ppp(Z, s), diameters=dia, a=0.3)
+    else:
+        o = cls(xu_snapshots=W.S[s], dt=0.002, ppp=np.zeros(W.dim, dtype=int), diameters=dia, a=0.1, cal_type="fast",
+                neighborfile=W.nbr[s], max_neighbors=30)
+    Z.obj[(fam, s)], Z.cv[(fam, s)] = o, (v, None)
+    return Z.state_digest(fam, s), None
+
+
+def c_dyn(Z, s, v):
+    from PyMatterSim.dynamic.dynamics import Dynamics
+    return _c_dyn(Z, s, v, Dynamics, "dyn")
+
+
+def c_logdyn(Z, s, v):
+    from PyMatterSim.dynamic.dynamics import LogDynamics
+    return _c_dyn(Z, s, v, LogDynamics, "logdyn")
+
+
+def m_dyn_relaxation(Z, s, v):
+    o = _need(Z, "dyn", s)
+    if v == 0:
+        return o.relaxation(), None
+    out = Z.out(".csv")
+    r = o.relaxation(qconst=5.0, condition=Z.W.a("cond_b_r", s), outputfile=out)
+    return r, csv_holds(out, r, None)
+
+
+def m_dyn_sq4(Z, s, v):
+    o = _need(Z, "dyn", s)
+    t = float(o.time[0])
+    if v == 0:
+        return o.sq4(t=t, qrange=Z.W.qrange), None
+    out = Z.out(".csv")
+    r = o.sq4(t=2 * t, qrange=Z.W.qrange, condition=Z.W.a("cond_b", s), outputfile=out)
+    return r, csv_holds(out, r, None)
+
+
+def m_logdyn_relaxation(Z, s, v):
+    o = _need(Z, "logdyn", s)
+    if v == 0:
+        return o.relaxation(), None
+    out = Z.out(".csv")
+    r = o.relaxation(qconst=5.0, condition=Z.W.a("cond_b_r", s)[0], outputfile=out)
+    return r, csv_holds(out, r, None)
+
+
+def c_hess(Z, s, v):
+    from PyMatterSim.static.hessians import HessianMatrix
+    W = Z.W
+    o = HessianMatrix(Z.one(s), masses={k + 1: 1.0 + 0.5 * k for k in range(W.K[s])}, epsilons=W.a("eps", s),
+                      sigmas=W.a("sigmas_r", s), r_cuts=W.a("rcuts_v", s), ppp=_ppp(Z, s), shiftpotential=True)
+    Z.obj[("hess", s)], Z.cv[("hess", s)] = o, (v, None)
+    return Z.state_digest("hess", s), None
+
+
+def m_hess_diag(Z, s, v):
+    from PyMatterSim.static.hessians import InteractionParams, ModelName
+    o = _need(Z, "hess", s)
+    out = Z.out("")
+    if v == 0:
+        r = o.diagonalize_hessian(InteractionParams(model_name=ModelName.lennard_jones), saveevecs=True, outputfile=out)
+        return (r, _files(out + ".omega_PR.csv", out + ".evecs.npy")), None
+    r = o.diagonalize_hessian(InteractionParams(model_name=ModelName.inverse_power_law, ipl_n=10, ipl_A=1.0),
+                              saveevecs=False, savehessian=True, outputfile=out)
+    return (r, _files(out + ".omega_PR.csv", out + ".hessianmatrix.npy")), None
+
+
+IMPL = {
+    "conditional_gr": i_conditional_gr, "conditional_sq": i_conditional_sq, "q8_tetrahedral": i_q8,
+    "packing_capability_2d": i_packing, "gyration_tensor": i_gyration, "participation_ratio": i_participation,
+    "local_vector_alignment": i_alignment, "phase_quotient": i_phase_quotient, "divergence_curl": i_divcurl,
+    "vibrability": i_vibrability, "vector_decomposition_sq": i_vecdecomp, "vector_fft_corr": i_vecfft,
+    "time_correlation": i_timecorr, "Nnearests": i_nnearests, "cutoffneighbors": i_cutoff,
+    "cutoffneighbors_particletype": i_cutoff_type, "read_neighbors": i_read_neighbors, "reopen": i_reopen,
+    "cal_neighbors": i_cal_neighbors, "VolumeMatrix": i_volume_matrix, "remove_pbc": i_remove_pbc,
+    "time_average": i_time_average, "spatial_average": i_spatial_average, "gaussian_blurring": i_gaussian_blurring,
+    "triangle_area": i_triangle_area, "moment_of_inertia": i_moment_of_inertia, "Filon_COS": i_filon,
+    "lines_intersection": i_lines_intersection, "LineWithinSquare": i_line_within_square,
+    "cage_relative": i_cage_relative, "s2_integral": i_s2_integral, "grid_gaussian": i_grid_gaussian,
+    "choosewavevector": i_choosewavevector, "sph_harm_l": i_sph_harm, "Wignerindex": i_wigner,
+    "write_dump_header": i_write_dump_header,
+    "gr": c_gr, "gr.getresults": m_gr_getresults, "sq": c_sq, "sq.getresults": m_sq_getresults,
+    "boo_3d": c_boo3d, "boo_3d.ql_Ql": m_boo3d_ql, "boo_3d.sij_ql_Ql": m_boo3d_sij, "boo_3d.w_W_cap": m_boo3d_w,
+    "boo_3d.spatial_corr": m_boo3d_spatial, "boo_3d.time_corr": m_boo3d_time,
+    "boo_2d": c_boo2d, "boo_2d.time_average": m_boo2d_time_average, "boo_2d.spatial_corr": m_boo2d_spatial,
+    "boo_2d.time_corr": m_boo2d_time,
+    "NematicOrder": c_nematic, "NematicOrder.tensor": m_nematic_tensor, "NematicOrder.spatial_corr": m_nematic_spatial,
+    "NematicOrder.time_corr": m_nematic_time,
+    "S2": c_s2, "S2.particle_s2": m_s2_particle, "S2.spatial_corr": m_s2_spatial, "S2.time_corr": m_s2_time,
+    "Dynamics": c_dyn, "Dynamics.relaxation": m_dyn_relaxation, "Dynamics.sq4": m_dyn_sq4,
+    "LogDynamics": c_logdyn, "LogDynamics.relaxation": m_logdyn_relaxation,
+    "HessianMatrix": c_hess, "HessianMatrix.diagonalize_hessian": m_hess_diag,
+}
